@@ -35,6 +35,7 @@
 #define SAMPLES_PER_DATA_MIN            (SAMPLE_DECIMATE_FACTOR_MIN)
 #define ENTRIES_PER_SUMMARY_MIN         (SAMPLE_DECIMATE_FACTOR_MIN)
 #define SUMMARY_DECIMATE_FACTOR_MIN     (SAMPLE_DECIMATE_FACTOR_MIN)
+#define TS_DECIMATE_FACTOR_MIN          (2)   // a factor of 1 never decimates: every level fills at once
 #define F64_BUF_LENGTH_MIN (1 << 16)
 #define SIGNAL_MASK  (0x0fff)
 #define TAU_F (6.283185307179586f)
@@ -257,6 +258,8 @@ int32_t jls_core_signal_def_align(struct jls_signal_def_s * def) {
     def->samples_per_data = samples_per_data;
     def->entries_per_summary = entries_per_summary;
     def->summary_decimate_factor = summary_decimate_factor;
+    def->annotation_decimate_factor = u32_max(def->annotation_decimate_factor, TS_DECIMATE_FACTOR_MIN);
+    def->utc_decimate_factor = u32_max(def->utc_decimate_factor, TS_DECIMATE_FACTOR_MIN);
     return 0;
 }
 
